@@ -28,6 +28,10 @@ type Behaviour struct {
 	// (the client then handles the hash result of that piece with the peer already gone).
 	CloseOnPieceDone bool `json:"close_on_piece_done,omitempty"`
 	DelayPerBlockMs  int  `json:"delay_per_block_ms,omitempty"` // honest but slow
+	// MetaMode scripts the answers to ut_metadata requests: "" honest, garbage (right size, wrong bytes), wrong-total,
+	// short-piece, long-piece, dup, unrequested, reject, silent, close.
+	MetaMode string `json:"meta_mode,omitempty"`
+	MetaDelayMs int `json:"meta_delay_ms,omitempty"`
 }
 
 // Honest reports whether the behaviour never sends wrong data.
@@ -53,6 +57,7 @@ type Server struct {
 	Interested  bool
 	LastRequest time.Time
 	Choked      int // number of choke cycles performed
+	MetaRequests int // ut_metadata requests received
 	done        chan struct{}
 }
 
@@ -136,13 +141,45 @@ func (s *Server) run() {
 			if !ok {
 				continue
 			}
+			s.mu.Lock()
+			s.MetaRequests++
+			s.mu.Unlock()
+			if s.B.MetaDelayMs > 0 {
+				time.Sleep(time.Duration(s.B.MetaDelayMs) * time.Millisecond)
+			}
 			beg := int(m.Index) * 16384
-			if s.Info == nil || beg >= len(s.Info) {
+			if s.Info == nil || beg >= len(s.Info) || s.B.MetaMode == "reject" {
 				p.Send(refwire.Msg{Kind: "ext-metadata", ExtID: uint8(cid), MsgType: 2, Index: m.Index})
 				continue
 			}
 			end := min(beg+16384, len(s.Info))
-			p.Send(refwire.Msg{Kind: "ext-metadata", ExtID: uint8(cid), MsgType: 1, Index: m.Index, TotalSize: int64(len(s.Info)), HasTotal: true, Data: s.Info[beg:end]})
+			data := append([]byte(nil), s.Info[beg:end]...)
+			out := refwire.Msg{Kind: "ext-metadata", ExtID: uint8(cid), MsgType: 1, Index: m.Index, TotalSize: int64(len(s.Info)), HasTotal: true, Data: data}
+			switch s.B.MetaMode {
+			case "silent":
+				continue
+			case "close":
+				p.Close()
+				return
+			case "garbage":
+				for k := range out.Data {
+					out.Data[k] ^= byte(0x5a + k)
+				}
+			case "wrong-total":
+				out.TotalSize = int64(len(s.Info)) + 7
+			case "short-piece":
+				if len(out.Data) > 1 {
+					out.Data = out.Data[:len(out.Data)-1]
+				}
+			case "long-piece":
+				out.Data = append(out.Data, 'x')
+			case "unrequested":
+				out.Index = m.Index + 1
+			}
+			p.Send(out)
+			if s.B.MetaMode == "dup" {
+				p.Send(out)
+			}
 		case "notinterested":
 			s.mu.Lock()
 			s.Interested = false
